@@ -105,7 +105,11 @@ def get_options_and_frames(
         # Note: peek(3) issues at most one raw read, which a pipe, a socket or a chunked
         # HTTP body may answer with fewer than 3 bytes; read(3) keeps reading until it has
         # 3 bytes (or EOF) and never asks for more than that.
-        inp = io.BufferedReader(inp)  # type: ignore[arg-type, type-var, unused-ignore]
+        # An already buffered stream (socket.makefile("rb"), sys.stdin.buffer) is not wrapped
+        # again: the outer reader would fill its buffer through readinto(), which does not
+        # return before 8 KiB have arrived, so frames already delivered would be held back.
+        if not isinstance(inp, io.BufferedIOBase):
+            inp = io.BufferedReader(inp)  # type: ignore[arg-type, type-var, unused-ignore]
         header = inp.read(3)
         is_delimited = delimited_jelly_hint(header)
         inp = _PrependedReader(header, inp)  # type: ignore[assignment]
